@@ -362,7 +362,8 @@ def main_check(mod, tier, seed):
         path = write_replay(mod.ID, fj)
         violations += 1
         lines.append(f"VIOLATION property={mod.ID} replay={path}")
-        lines.append(f"  signature={sig} hits={merged['fail_counts'].get(sig, 0)} :: {fj['what'][:300]}")
+        first = (fj["what"].splitlines() or [""])[0]
+        lines.append(f"  signature={sig} hits={merged['fail_counts'].get(sig, 0)} :: {first[:300]}")
     extra = mod.extra_coverage(merged) if hasattr(mod, "extra_coverage") else None
     write_evidence(mod, tier, seed, merged, time.monotonic() - t0, violations, extra)
     print(f"{mod.ID} tier={tier} seed={seed} evaluations={merged['evaluations']} "
